@@ -9,6 +9,7 @@ import Orda.Model.Server
 import Orda.Model.Patch
 import Orda.Model.Rest
 import Orda.Model.Fault
+import Orda.Spec.PlainDoc
 open Lean
 namespace Orda
 
@@ -78,6 +79,42 @@ def parseCall (hs : List (String × Ts)) (j : Json) : Option Call :=
   | "lgetMany" => some (.lgetMany (getI a "pos") (getI a "n"))
   | "lsize" => some .lsize
   | _ => none
+
+/-- path of a live handle (climbing the parents); `none` for a handle that sits nowhere in the live tree -/
+def Doc.pathOf (d : Doc) : Nat → Ts → Option (List PlainDoc.Seg)
+  | 0, _ => none
+  | fuel + 1, h =>
+    if h = Ts.oldest then some []
+    else match d.find h with
+      | none => none
+      | some n =>
+        match n.parent with
+        | none => none
+        | some p =>
+          match d.find p with
+          | some ⟨_, _, _, .obj m _⟩ =>
+            (match m.find? (fun kc => kc.2 = h) with
+             | some (k, _) => (d.pathOf fuel p).map (· ++ [PlainDoc.Seg.key k])
+             | none => none)
+          | some ⟨_, _, _, .arr _ _⟩ =>
+            (match (d.liveChildren p).findIdx? (· = h) with
+             | some i => (d.pathOf fuel p).map (· ++ [PlainDoc.Seg.idx i])
+             | none => none)
+          | _ => none
+
+/-- C03 for documents, evaluated per step: the reaction of the plain JSON tree (Spec/PlainDoc) to the call, computed
+    from the state before the call; `located = false` for a handle of a deleted container (the call must be refused) -/
+def plainDocJ (pre : DState) (c : Call) : List (String × Json) :=
+  match pre, PlainDoc.handleOf c with
+  | .doc d, some h =>
+    match d.pathOf (d.table.length + 1) h with
+    | some π =>
+      if d.locate π Ts.oldest = some h then
+        let (t', o) := PlainDoc.step d.view.canon π c
+        [("plain", Json.mkObj ([("located", Json.bool true), ("view", t'.toJson)] ++ outcomeJ Ret.toJson o))]
+      else [("plain", Json.mkObj [("located", Json.bool false)])]
+    | none => [("plain", Json.mkObj [("located", Json.bool false)])]
+  | _, _ => []
 
 def parseDt : String → DtType
   | "counter" => .counter
@@ -397,10 +434,11 @@ def Sim.step (s : Sim) (j : Json) : Sim × Json :=
     | some c =>
       let (r', o) := s.reps[i]!.call c
       let s1 := { s with reps := s.reps.set! i r' }
-      if s.wkey.size > 0 then (s1, Json.mkObj (outcomeJ Ret.toJson o ++ s1.spost i))
+      let pl := plainDocJ s.reps[i]!.state c
+      if s.wkey.size > 0 then (s1, Json.mkObj (outcomeJ Ret.toJson o ++ s1.spost i ++ pl))
       else
       let (s2, p) := s1.post i
-      (s2, Json.mkObj (outcomeJ Ret.toJson o ++ p))
+      (s2, Json.mkObj (outcomeJ Ret.toJson o ++ p ++ pl))
   | "tx" =>
     let i := getN j "r"
     let calls := (getA j "calls").filterMap (parseCall s.handles[i]!)
